@@ -1,8 +1,10 @@
 """C01 — Front end never crashes on any source text.
 
 Proof: GardenVerif.Props.C01Lex (lex_no_panic, lex_terminates, lex_tokens_cover over the lexer model M1,
-tables tied to the source by decide) and GardenVerif.Props.C01Parse (partial: the parser model's
-primitive steps never panic / never move backwards; pinned-tree panics kept as witnesses).
+tables tied to the source by decide) and GardenVerif.Props.C01Parse (`parse_no_panic`: the whole parser model
+never panics, for every fuel, on every non-empty token list satisfying `LexLike`; `lex_lexLike`: the lexer
+model's tokens satisfy `LexLike`; `lex_parse_no_panic`: the composition, no hypothesis; pinned-tree panics kept
+as witnesses).
 Tie: `lex` op vs the lexer model; the parser model on the REAL lexer's tokens vs the real parser
 (trees, diagnostic kinds, PANIC <=> PANIC at the same site).
 Direct oracle on the implementation: the `front` hook op (lex + parse + check + format under
@@ -266,7 +268,9 @@ def run(ctx):
     shutil.rmtree(d, ignore_errors=True)
     ctx.assumptions += ["lexer model M1 and parser model M2 are hand-written; tied by the correspondence runs",
                         "parse_no_panic assumes `LexLike toks` (float-looking tokens are whole floats, symbol-like "
-                        "tokens sit on one line): not proved about the lexer model; VALIDATED on every real token "
-                        "stream of this run (coverage.lexlike_token_streams_checked, lexlike_violations)",
+                        "tokens sit on one line): proved for the lexer MODEL (lex_lexLike) and additionally checked on "
+                        "every REAL token stream of this run (coverage.lexlike_token_streams_checked, lexlike_violations)",
+                        "the theorems are about panics only: with too little fuel the models answer outOfFuel; "
+                        "non-termination / native stack depth of the real parser is covered by the oracle only",
                         "the type checker and the formatter are not modelled: for them the oracle is the only evidence",
                         "the native stack is not modelled (fixed-depth probe only)"]
